@@ -688,3 +688,76 @@ func init() {
 		MinReach: []string{"end"}, TVVectors: 2,
 	})
 }
+
+func init() {
+	register(&Property{
+		ID: "C15", Dirs: []string{"root"},
+		Jobs: func(tier string) []Job {
+			var jobs []Job
+			docs := []string{"a,b\n1,2\n3,4\n", "a,b\n1,2\n3,4", "a,b\n\"x\",\"y\"\n\"z\",\"w\"\n", "a\n1\n2\n3\n", "a,b\n"}
+			for _, d := range docs {
+				for _, ch := range []string{"0", "1", "3"} {
+					jobs = append(jobs, Job{Harness: "VX_C15_readcsv", Params: P("doc", d, "chunk", ch)})
+				}
+			}
+			jobs = append(jobs, Job{Harness: "VX_C15_readcsv", Params: P("doc", "a,b\n1,2\n3,4\n", "chunk", "2", "types", "string")})
+			for _, op := range []string{"tocsv", "tojson"} {
+				for _, n := range []string{"0", "1", "2"} {
+					jobs = append(jobs, Job{Harness: "VX_C15_write", Params: P("op", op, "n", n)})
+				}
+			}
+			jobs = append(jobs, Job{Harness: "VX_C15_sql", Params: P("what", "prepare", "at", "0")}, Job{Harness: "VX_C15_sql", Params: P("what", "query", "at", "0")})
+			for at := 0; at <= 3; at++ {
+				jobs = append(jobs, Job{Harness: "VX_C15_sql", Params: P("what", "next", "at", itoa(at))})
+			}
+			for at := 0; at <= 1; at++ {
+				jobs = append(jobs, Job{Harness: "VX_C15_sql", Params: P("what", "exec", "at", itoa(at))})
+			}
+			return jobs
+		},
+		Bounds: func(tier string) string {
+			return "ReadCSV: 5 documents (quoted/unquoted, with/without final line break, header only) x read chunk sizes {whole,1,3}, failure position symbolic over every byte offset 0..len; ToCSV/ToJSON: frames of 0-2 rows (int + string column, symbolic cells), writer failing at its k-th call for every k in 0..6, with and without a short write; SQL: Prepare/Query failing, Rows ending with an error after 0..3 of 3 rows, Exec failing at statement 0..1"
+		},
+		Assume:   []string{"a reader failure is a non-EOF error returned instead of further data", "encoding/csv.Writer and bufio run for real (failures surface at Flush)"},
+		Outside:  []string{"ReadJSON (encoding/json not executable by the engine)", "SQL faults are decided against the database/sql contract model of C19 (Prepare/Query fail, result set ending with an error after k=0..3 rows, k-th Exec failing)"},
+		MinReach: []string{"end"}, TVVectors: 1,
+	})
+}
+
+func init() {
+	register(&Property{
+		ID: "C19", Dirs: []string{"root"},
+		Jobs: func(tier string) []Job {
+			var jobs []Job
+			n := "2"
+			if tier == "thorough" {
+				n = "3"
+			}
+			for _, d := range []string{"postgres", "sqlite", "mysql", "plain", "incr"} {
+				for _, ts := range []string{"int,string", "float,bool,enum"} {
+					table := "t"
+					if d == "mysql" {
+						table = "my`tab"
+					}
+					jobs = append(jobs, Job{Harness: "VX_C19_tosql", Params: P("types", ts, "n", n, "dialect", d, "table", table)})
+				}
+			}
+			jobs = append(jobs, Job{Harness: "VX_C19_tosql", Params: P("types", "string", "n", "0", "dialect", "plain", "table", "t")})
+			for _, ts := range []string{"int", "float", "bool", "string", "int,string", "float,string,bool"} {
+				for _, by := range []string{"false", "true"} {
+					jobs = append(jobs, Job{Harness: "VX_C19_readsql", Params: P("types", ts, "n", n, "bytes", by)})
+				}
+			}
+			for _, ts := range []string{"int,string", "float,bool", "enum,int", "string,enum,float"} {
+				jobs = append(jobs, Job{Harness: "VX_C19_roundtrip", Params: P("types", ts, "n", n)})
+			}
+			return jobs
+		},
+		Bounds: func(tier string) string {
+			return "frames of 2 (thorough 3) rows derived from a larger physical frame, 1-3 columns over the five types with symbolic cells; dialects postgres/sqlite/mysql/plain/incrementing, a table name containing the escape character; result sets of the driver types int64, float64, bool, string, []byte, NULL (NULLs in text/float columns, including leading NULLs); write-then-read round trips"
+		},
+		Assume:   []string{"database/sql is a contract model in the engine (Tx.Prepare/Exec, Stmt.Query/Close, Rows.Next/Columns/Scan/Err): Scan passes each driver value to the destination's Scan method; Exec arguments are normalised like database/sql's default converter; natively a scripted in-memory driver behind the real database/sql is used for replay", "Precision and the coercion options are not exercised"},
+		Outside:  []string{"real drivers' type mapping", "Coerce and Precision options", "identifier escaping rules beyond wrapping in the escape character (the code does not double embedded escape characters; the statement does not require it)"},
+		MinReach: []string{"end"}, TVVectors: 2,
+	})
+}
